@@ -98,3 +98,17 @@ PROPS["C10"] = {
     "outside": "non-UTF-8 bytes (rejected by the transports before the parser) and non-ASCII text in symbolic positions; the ws / tiny_http crates; sequences of more than one hostile command; arithmetic overflow panics that exist only in debug builds are reported under their own check ids",
     "assumptions": ["environment shims", "single-thread self-deadlock = a lock requested while the same thread holds it incompatibly is reported as a panic"],
 }
+
+PROPS["C09"] = {
+    "level": "model_checking",
+    "harnesses": [
+        {"name": "c09_admin_words", "covers": ["admin-word.refused"]},
+        {"name": "c09_no_credentials"},
+        {"name": "c09_user_permissions", "covers": ["permission.denied-case", "permission.granted-case"], "budget_s": {"quick": 900, "thorough": 3600}},
+        {"name": "c09_failed_rebind"},
+    ],
+    "bounds": {"quick": "one command; administrative / cluster words (21 words, plain and inside the rp wrapper) x 0..3 symbolic tokens (<= 3 chars) x {fresh session, database-token session}; data words (13) before any valid credential (nothing, wrong password, wrong token, unknown database); user-token session with permission list in {none, r, w, i, x, rwix} x pattern in {a*, *z, m} x key = symbolic token (<= 3 chars) x 8 operations (get, get-safe, watch, set, set-safe, increment, remove, resolve); failed use-db (wrong user token / wrong database token / unknown database, symbolic wrong token) keeps binding and rights",
+               "thorough": "same with tokens <= 5 chars"},
+    "outside": "permission lists with several '|' entries or several patterns per entry (grammar covered by c10_parse_permissions); permission changes made mid-session; arbiter registration by user-token sessions",
+    "assumptions": ["environment shims", "state digest = every key/value/version/state of every database, watcher counts, connection counters, cluster members, role, snapshot queue, pending operations, replication and supervisor queues"],
+}
